@@ -46,8 +46,23 @@ def describe(case, obs):
     return f"{case} -> impl {str(obs)[:300]}"
 
 
+def systematic():
+    """A fixed block at every seed: one axis set registered through the constructor under two spellings of
+    its key (("X","Y") and ("Y","X")), queried from every position."""
+    out = []
+    hs = [[("a_cc", ["X", "Y"]), ("a_ll", ["Y", "X"])], [("a_ll", ["Y", "X"]), ("a_cc", ["X", "Y"])],
+          [("a_cc", ["Y", "X"]), ("a_lc", ["X", "Y"])], [("v_xz", ["X", "Z"]), ("dz_c", ["Z"]), ("dx_l", ["X"]), ("dx_c", ["X"])]]
+    for h in hs:
+        hist = [{"key": k, "names": [n], "overwrite": True} for n, k in h]
+        for adims in (["yc", "xc"], ["yl", "xl"], ["yc", "xl"], ["xc", "yl"], ["zc", "yc", "xc"], ["zc", "xl"]):
+            for axes in (["X", "Y"], ["Y", "X"], ["X"], ["X", "Z"]):
+                if all(any(d in AXDIMS[a] for d in adims) for a in axes):
+                    out.append({"history": hist, "adims": adims, "axes": axes, "n_ctor": len(hist)})
+    return out
+
+
 def generate(rng, tier):
-    cases = []
+    cases = systematic()
     n = 400 if tier == "quick" else 3000
     for _ in range(n):
         k = rng.randint(1, 7)
@@ -80,7 +95,18 @@ def generate(rng, tier):
             adims.append("t")
         rng.shuffle(adims)
         ax = axes[0] if len(axes) == 1 and rng.random() < 0.4 else axes
-        cases.append({"history": history, "adims": adims, "axes": ax})
+        case = {"history": history, "adims": adims, "axes": ax}
+        # how many of the first registrations are made through the constructor's `metrics` mapping (its keys
+        # are tuples: ("X","Y") and ("Y","X") are two keys for one axis set)
+        case["n_ctor"] = rng.randint(0, len(history)) if rng.random() < 0.5 else 0
+        # queries are read-only: an earlier query for the same axes from another position changes nothing
+        if rng.random() < 0.5:
+            wd = []
+            for a in ["X", "Y", "Z"]:
+                if any(d in AXDIMS[a] for d in adims):
+                    wd.append(rng.choice(AXDIMS[a]))
+            case["warmup_adims"] = wd
+        cases.append(case)
     return cases
 
 
@@ -96,8 +122,16 @@ def build(case):
         ds[n] = (d, val)
     coords = {"X": {"center": "xc", "left": "xl", "outer": "xo"}, "Y": {"center": "yc", "left": "yl"},
               "Z": {"center": "zc"}}
-    g = Grid(ds, coords=coords, periodic=False, autoparse_metadata=False)
-    for c in case["history"]:
+    # the leading registrations that can be written as one constructor mapping (distinct key tuples,
+    # single-variable, in order) go through the constructor
+    mets, k = {}, 0
+    for c in case["history"][:case.get("n_ctor", 0)]:
+        if tuple(c["key"]) in mets or len(c["names"]) != 1:
+            break
+        mets[tuple(c["key"])] = list(c["names"])
+        k += 1
+    g = Grid(ds, coords=coords, periodic=False, autoparse_metadata=False, **({"metrics": mets} if mets else {}))
+    for c in case["history"][k:]:
         g.set_metrics(tuple(c["key"]), list(c["names"]), overwrite=c["overwrite"])
     return ds, g
 
@@ -109,6 +143,14 @@ def run_impl(case):
     ds, g = build(case)
     arr = xr.DataArray(np.ones([SIZES[d] for d in case["adims"]]), dims=case["adims"])
     axes = case["axes"]
+    if case.get("warmup_adims"):
+        with warnings.catch_warnings():
+            warnings.simplefilter("ignore")
+            try:
+                g.get_metric(xr.DataArray(np.ones([SIZES[d] for d in case["warmup_adims"]]), dims=case["warmup_adims"]),
+                             axes if isinstance(axes, str) else tuple(axes))
+            except Exception:
+                pass
     with warnings.catch_warnings(record=True) as w:
         warnings.simplefilter("always")
         try:
